@@ -25,6 +25,9 @@ type ParseObs struct {
 	Out1    string
 	Out2    string
 	Handler []CallEntry
+	// ArgsTouched: the argument vector handed to ParseArgs was written to (it belongs to the caller: os.Args, or a
+	// vector that is parsed a second time)
+	ArgsTouched string
 }
 
 func errTypeName(e error) string {
@@ -52,6 +55,12 @@ func RunParse(b *Built, args []string) *ParseObs {
 	o.Panic = safely(func() {
 		o.Rest, o.Err = b.P.ParseArgs(cp)
 	})
+	for i := range cp {
+		if cp[i] != args[i] {
+			o.ArgsTouched = fmt.Sprintf("ParseArgs wrote to the argument vector it was given: element %d was %q and is now %q", i, args[i], cp[i])
+			break
+		}
+	}
 	if fe, ok := o.Err.(*flags.Error); ok {
 		o.FErr = fe
 	}
@@ -136,6 +145,9 @@ func CompareSuccess(sc *Scenario, o *ParseObs, checkRest bool) (string, string) 
 	}
 	if msg := aliasDamage(d); msg != "" {
 		return "program-data-overwritten", msg
+	}
+	if o.ArgsTouched != "" {
+		return "argument-vector-overwritten", o.ArgsTouched
 	}
 	for gi, g := range d.Grps {
 		for pi, pf := range g.Plain {
